@@ -36,6 +36,7 @@ import (
 	"github.com/rqlite/rqlite/v10/internal/random"
 	"github.com/rqlite/rqlite/v10/internal/rsum"
 	"github.com/rqlite/rqlite/v10/internal/rsync"
+	"github.com/rqlite/rqlite/v10/internal/verifhook"
 	"github.com/rqlite/rqlite/v10/snapshot"
 	rlog "github.com/rqlite/rqlite/v10/store/log"
 	"github.com/rqlite/rqlite/v10/store/throttler"
@@ -2007,6 +2008,10 @@ func (s *Store) ReadFrom(r io.Reader) (int64, error) {
 		return n, fmt.Errorf("error swapping database file: %v", err)
 	}
 
+	if err := verifhook.Hit("store.readfrom.after-swap"); err != nil {
+		return n, err
+	}
+
 	// Swapping in a new database unregisters any registered CDC hooks, so signal that it
 	// needs to be reregistered on the next change.
 	s.cdcRegistered.Unset()
@@ -2014,6 +2019,9 @@ func (s *Store) ReadFrom(r io.Reader) (int64, error) {
 	// Snapshot, so we load the new database into the Raft system.
 	if err := s.snapshotStore.SetDueNext(snapshot.Full); err != nil {
 		s.logger.Fatalf("failed to set full snapshot needed: %s", err)
+	}
+	if err := verifhook.Hit("store.readfrom.before-snapshot"); err != nil {
+		return n, err
 	}
 	if err := s.Snapshot(1); err != nil {
 		return n, err
@@ -2504,6 +2512,7 @@ func (s *Store) fsmApply(l *raft.Log) (e any) {
 		s.logger.Printf("first log applied since node %s started, log at index %d", s.raftID, l.Index)
 	}
 
+	verifhook.Hit("store.apply.before")
 	cmd, mutated, r := func() (*proto.Command, bool, any) {
 		// Reset CDC streamer with the current log index before processing if CDC is enabled
 		if s.cdcEnabled.Is() {
@@ -2533,6 +2542,7 @@ func (s *Store) fsmApply(l *raft.Log) (e any) {
 		return s.cmdProc.Process(l.Data, s.db)
 	}()
 
+	verifhook.Hit("store.apply.after")
 	if mutated {
 		s.dbAppliedIdx.Store(l.Index)
 		s.appliedTarget.Signal(l.Index)
@@ -2644,6 +2654,9 @@ func (s *Store) fsmSnapshot() (fSnap raft.FSMSnapshot, retErr error) {
 			s.numFullSnapshotsMetaFail.Add(1)
 			return nil, fmt.Errorf("checkpoint did not succeed during full snapshot")
 		}
+		if err := verifhook.Hit("store.snapshot.full.after-checkpoint"); err != nil {
+			return nil, err
+		}
 		streamer, err := snapshot.NewSnapshotStreamer(s.db.Path())
 		if err != nil {
 			return nil, err
@@ -2693,6 +2706,7 @@ func (s *Store) fsmSnapshot() (fSnap raft.FSMSnapshot, retErr error) {
 			s.numIncSnapshotsRetryable.Add(1)
 			return nil, err
 		}
+		verifhook.Hit("store.snapshot.inc.after-checkpoint")
 		s.numIncSnapshots.Add(1)
 
 		// Now that the database has been truncated successfully, the WAL file in the Staging directory
@@ -2706,6 +2720,8 @@ func (s *Store) fsmSnapshot() (fSnap raft.FSMSnapshot, retErr error) {
 		if err := walWriter.Close(); err != nil {
 			return nil, err
 		}
+
+		verifhook.Hit("store.snapshot.inc.after-wal-close")
 
 		// When it comes to incremental snapshotting of WAL files, we pass the WAL directory path to the
 		// Snapshot Store indirectly via the header. The Snapshotting system knows to check for this. It
@@ -2793,10 +2809,16 @@ func (s *Store) fsmRestore(rc io.ReadCloser) (retErr error) {
 	if err := fsutil.RemoveFile(s.cleanSnapshotPath); err != nil {
 		return fmt.Errorf("failed to remove clean snapshot file: %w", err)
 	}
+	if err := verifhook.Hit("store.restore.after-fp-remove"); err != nil {
+		return err
+	}
 	if err := s.db.Swap(tmpPath, s.dbConf.FKConstraints, true); err != nil {
 		return fmt.Errorf("error swapping database file: %v", err)
 	}
 	s.logger.Printf("successfully opened database at %s due to restore", s.db.Path())
+	if err := verifhook.Hit("store.restore.after-swap"); err != nil {
+		return err
+	}
 	// Installed SQLite database is safe for fast restarts again.
 	if err := s.createSnapshotFingerprint(); err != nil {
 		return fmt.Errorf("failed to create snapshot fingerprint post restore: %s", err)
@@ -3078,6 +3100,10 @@ func (s *Store) createSnapshotFingerprint() error {
 	if err := fp.WriteToFile(tmpFP); err != nil {
 		return fmt.Errorf("failed to write snapshot fingerprint to temp file: %s", err)
 	}
+	if err := verifhook.Hit("store.fingerprint.before-rename"); err != nil {
+		return err
+	}
+	defer verifhook.Hit("store.fingerprint.after-rename")
 	return os.Rename(tmpFP, s.cleanSnapshotPath)
 }
 
